@@ -228,6 +228,11 @@ def gen_spec(prop, rng, tier):
                 seqs[rng.randrange(len(seqs))] = ''
         spec['arr_seqs'] = seqs
     spec['faults'] = enumerate_faults(spec, rng)
+    cost = sum(len(x) for x in wl['seqs']) * max(len(x) for x in wl['seqs']) + len(data) * 50
+    if tier == 'quick' and cost > 3_000_000 and len(spec['faults']) > 8:
+        # expensive scenario (long rows under ASan): a seeded sample of the placements instead of all of them
+        spec['faults'] = rng.sample(spec['faults'], 8)
+        spec['faults_sampled'] = 1
     return spec
 
 
@@ -542,7 +547,7 @@ def judge(spec, results):
 
 
 def job_stats(spec, results):
-    st = {'outcomes': {}, 'faults_injected': {}, 'classes': {spec['cls']: 1}, 'modes': {spec['mode']: 1}, 'mutations': {}, 'memcheck_runs': 1 if 'vg' in results else 0}
+    st = {'scenarios_with_all_placements': 0 if spec.get('faults_sampled') else 1, 'scenarios_with_sampled_placements': 1 if spec.get('faults_sampled') else 0, 'outcomes': {}, 'faults_injected': {}, 'classes': {spec['cls']: 1}, 'modes': {spec['mode']: 1}, 'mutations': {}, 'memcheck_runs': 1 if 'vg' in results else 0}
     for m in spec['muts']:
         st['mutations'][m] = 1
     for f in spec['faults']:
